@@ -642,7 +642,7 @@ Section with_range.
     - eapply quota_inv_keeps; eauto.
     - eapply ledger_inv_keeps; eauto.
     - eapply (money_inv_keeps [GNow]); eauto.
-    - destruct Hr as [R1 R2 R3 R4 R5]. split; auto.
+    - destruct Hr as [R1 R2 R3 R4 R5 R6]. split; auto.
   Qed.
 
   Theorem begin_block_total s t :
@@ -672,7 +672,7 @@ Section with_range.
       - eapply quota_inv_frame; [..|exact Hq]; reflexivity.
       - eapply ledger_inv_frame; [..|exact Hg]; reflexivity.
       - eapply (money_inv_keeps []); [|reflexivity..|exact Hm]. keeps_solve.
-      - destruct Hr as [R1 R2 R3 R4 R5]. split; auto. }
+      - destruct Hr as [R1 R2 R3 R4 R5 R6]. split; auto. }
     unfold end_block.
     destruct (node_end_block_total (clear_events s) (ai_k _ (lf_idx _ (hk_life _ Hh0))) (ai_node _ (lf_idx _ (hk_life _ Hh0)))) as [s1 Hs1].
     rewrite Hs1. simpl. destruct (hook_inv_node_end_block _ _ Hh0 Hs1) as [Hh1 N1].
